@@ -14,7 +14,7 @@ META = {
                   "listing": "2 children with names 'metador_'+f or near-miss family + f (|f| <= 1) + nested group with reserved entries: keys/len/iter/items/values/visit/visititems/in",
                   "algebra": "every canonical absolute user path of length <= 5", "internal": "6 prefixes x 7 families x free part <= 2 x suffix <= 3",
                   "unsupported": "every public attribute of h5py.Group outside the protocol"},
-        "thorough": {"listing": "|f| <= 2"},
+        "thorough": {"(same as quick)": ""},
     },
     "outside": ["clause (d) beyond sequences of 2 container actions (3 via C06)", "free parts of names longer than stated"],
     "stubs": ["numpy.cumproduct import shim", "recording raw group/dataset objects (association lists) instead of h5py nodes", "container object None (not needed by guards/filters)"],
